@@ -89,7 +89,8 @@ def api_documents():
     return out
 
 
-H5 = ('<div id="d" class="c"><svg id="s" class="c"><a id="sa" xlink:href="x" href="y" class="c"><circle id="ci" k="1"/></a></svg>'
+H5 = ('<div id="d" class="c"><form id="f"><input id="i1" type="text"><input id="i2" type="checkbox" checked><input id="i3" type="submit" disabled>'
+      '<textarea id="t" readonly></textarea><input id="i4" type="number" min="1" value="0"></form><svg id="s" class="c"><a id="sa" xlink:href="x" href="y" class="c"><circle id="ci" k="1"/></a></svg>'
       '<math id="m"><mi id="mi" class="c" k="2">x</mi></math><a id="ha" href="z" k="3">t</a><p id="p" class="c">u</p></div>')
 
 
@@ -159,6 +160,53 @@ def h5_selectors():
     return out
 
 
+PCS = [':enabled', ':disabled', ':default', ':read-only', ':read-write', ':checked', ':required', ':optional', ':any-link', ':in-range', ':out-of-range',
+       ':placeholder-shown', ':dir(ltr)', ':indeterminate', ':root', ':lang(en)']
+
+
+def run_h5_laws(sv, docs, res):
+    """HTML pseudo-classes are evaluated through selectors of the library's own, with a namespace map of their own.  Next to the caller's prefixes -
+    on the same compound, earlier in a list, across a combinator - the caller's map must be in force before, during and after:
+    T:PC = T intersected with :PC;  ':PC, U' = :PC united with U;  ':PC ~ T' = the T elements with an earlier :PC sibling."""
+    for dname, src, soup in docs:
+        els = T.elements(soup)
+        pos = {id(e): k for k, e in enumerate(els)}
+        for mname, m in HMAPS.items():
+            if not m:
+                continue
+
+            def sel(text):
+                return [pos[id(e)] for e in sv.select(text, soup, namespaces=m)]
+            for pc in PCS:
+                try:
+                    base = sel(pc)
+                    checks = []
+                    for t in ('x|input', 'x|*', 'svg|*', '*|circle', 'h|p'):
+                        checks.append((t + pc, sorted(set(base) & set(sel(t)))))
+                    for u in ('svg|circle', 'zz|p', 'html|p', 'x|p', 'svg|a > *'):
+                        checks.append((pc + ', ' + u, sorted(set(base) | set(sel(u)))))
+                        checks.append((u + ', ' + pc, sorted(set(base) | set(sel(u)))))
+                    for t in ('x|input', 'svg|*', 'x|*'):
+                        tt = set(sel(t))
+                        want = sorted(k for k in tt if any(pos[id(sib)] in base for sib in els[k].find_previous_siblings() if id(sib) in pos))
+                        checks.append((pc + ' ~ ' + t, want))
+                    for text, want in checks:
+                        got = sel(text)
+                        res.evaluations += 1
+                        if want:
+                            res.nontrivial += 1
+                        if got != want:
+                            res.fail({'src': src, 'map': mname, 'h5': True, 'law': True, 'text': text, 'pc': pc, 'selector': ()},
+                                     {'kind': 'law', 'direction': 'missing' if set(got) < set(want) else 'extra' if set(got) > set(want) else 'different', 'map': mname,
+                                      'features': 'html-pseudo-class-next-to-caller-prefix', 'doc': 'h5'},
+                                     f'[{dname}, map {mname}] select({text!r}) gives elements {got}; composed from its parts ({pc!r} and the rest, each selected alone) it is {want}')
+                        else:
+                            res.outcome('law-holds')
+                except Exception as e:
+                    res.fail({'src': src, 'map': mname, 'h5': True, 'law': True, 'text': pc, 'pc': pc, 'selector': ()},
+                             {'kind': 'raise', 'direction': type(e).__name__, 'map': mname, 'features': 'html-pseudo-class-next-to-caller-prefix', 'doc': 'h5'}, repr(e))
+
+
 def shards(tier, seed):
     n = 32 if tier == 'quick' else 96
     return [('xml', tier, i, n) for i in range(n)] + [('h5', tier, 0, 1)]
@@ -198,6 +246,7 @@ def run_shard(desc):
                 ('xhtml', bs4.BeautifulSoup('<html xmlns="%s"><body>%s</body></html>' % (XHTML, H5.replace('<svg ', '<svg xmlns="%s" xmlns:xlink="%s" ' % (SVG, XLINK)).replace('<math ', '<math xmlns="%s" ' % MATHML)), 'xml'))]
         maps, sels = HMAPS, h5_selectors()
         docs = [(n_, ('h5', n_), s_) for n_, s_ in docs]
+        run_h5_laws(sv, docs, res)
     else:
         docs = built(tier)
         maps, sels = MAPS, selector_forms(tier)
@@ -250,6 +299,13 @@ def replay(case):
         soup = bs4.BeautifulSoup(H5, 'html5lib')
     else:
         soup = bs4.BeautifulSoup('<html xmlns="%s"><body>%s</body></html>' % (XHTML, H5.replace('<svg ', '<svg xmlns="%s" xmlns:xlink="%s" ' % (SVG, XLINK)).replace('<math ', '<math xmlns="%s" ' % MATHML)), 'xml')
+    if case.get('law'):
+        r = shard.Result()
+        run_h5_laws(sv, [(payload, case['src'], soup)], r)
+        for f_ in r.failures:
+            if f_['case']['text'] == case['text'] and f_['case']['map'] == case['map']:
+                return f_['sig'], f_['detail']
+        return None
     m = (HMAPS if case['h5'] else MAPS)[case['map']]
     r = _sel.run_case(sv, soup, lst, namespaces=m, text=case['text'])
     if r['status'] in ('ok', 'unspecified'):
